@@ -305,7 +305,7 @@ macro_rules! grammar_body {
 
 crate::harnesses! {
     /// partial vs complete INTEGER parser, flags LTC: strings len <= 4 over {0 7 _ x}.
-    /// @prop C11 C13
+    /// @prop C11 C13~
     /// @feat format radix_format
     /// @bound format F_LTC; integer inputs of length <= 4 over {0 7 _ x}
     /// @fn lexical-parse-integer::algorithm (complete / partial instantiations)
@@ -315,7 +315,7 @@ crate::harnesses! {
     fn sep_partial_complete_int_ltc_len4() { pc_int_body!(F_LTC, 4) }
 
     /// partial vs complete INTEGER parser, flags LTC: strings len <= 5 over {0 7 _ x}.
-    /// @prop C11 C13
+    /// @prop C11 C13~
     /// @tier thorough
     /// @feat format radix_format
     /// @bound format F_LTC; integer inputs of length <= 5 over {0 7 _ x}
@@ -326,7 +326,7 @@ crate::harnesses! {
     fn sep_partial_complete_int_ltc() { pc_int_body!(F_LTC, 5) }
 
     /// partial vs complete INTEGER parser, flags ITC: strings len <= 4 over {0 7 _ x}.
-    /// @prop C11 C13
+    /// @prop C11 C13~
     /// @feat format radix_format
     /// @bound format F_ITC; integer inputs of length <= 4 over {0 7 _ x}
     /// @fn lexical-parse-integer::algorithm (complete / partial instantiations)
@@ -336,7 +336,7 @@ crate::harnesses! {
     fn sep_partial_complete_int_itc_len4() { pc_int_body!(F_ITC, 4) }
 
     /// partial vs complete INTEGER parser, flags ITC: strings len <= 5 over {0 7 _ x}.
-    /// @prop C11 C13
+    /// @prop C11 C13~
     /// @tier thorough
     /// @feat format radix_format
     /// @bound format F_ITC; integer inputs of length <= 5 over {0 7 _ x}
@@ -347,7 +347,7 @@ crate::harnesses! {
     fn sep_partial_complete_int_itc() { pc_int_body!(F_ITC, 5) }
 
     /// partial vs complete INTEGER parser, flags ILC: strings len <= 4 over {0 7 _ x}.
-    /// @prop C11 C13
+    /// @prop C11 C13~
     /// @feat format radix_format
     /// @bound format F_ILC; integer inputs of length <= 4 over {0 7 _ x}
     /// @fn lexical-parse-integer::algorithm (complete / partial instantiations)
@@ -357,7 +357,7 @@ crate::harnesses! {
     fn sep_partial_complete_int_ilc_len4() { pc_int_body!(F_ILC, 4) }
 
     /// partial vs complete INTEGER parser, flags ILC: strings len <= 5 over {0 7 _ x}.
-    /// @prop C11 C13
+    /// @prop C11 C13~
     /// @tier thorough
     /// @feat format radix_format
     /// @bound format F_ILC; integer inputs of length <= 5 over {0 7 _ x}
@@ -368,7 +368,7 @@ crate::harnesses! {
     fn sep_partial_complete_int_ilc() { pc_int_body!(F_ILC, 5) }
 
     /// partial vs complete INTEGER parser, flags ILTC: strings len <= 5 over {0 7 _ x}.
-    /// @prop C11 C13
+    /// @prop C11 C13~
     /// @feat format radix_format
     /// @bound format F_ALL; integer inputs of length <= 5 over {0 7 _ x}
     /// @fn lexical-parse-integer::algorithm (complete / partial instantiations)
@@ -378,7 +378,7 @@ crate::harnesses! {
     fn sep_partial_complete_int_iltc() { pc_int_body!(F_ALL, 5) }
 
     /// partial vs complete INTEGER parser, flags LT: strings len <= 5 over {0 7 _ x}.
-    /// @prop C11 C13
+    /// @prop C11 C13~
     /// @feat format radix_format
     /// @bound format F_LT; integer inputs of length <= 5 over {0 7 _ x}
     /// @fn lexical-parse-integer::algorithm (complete / partial instantiations)
@@ -388,7 +388,7 @@ crate::harnesses! {
     fn sep_partial_complete_int_lt() { pc_int_body!(F_LT, 5) }
 
     /// partial vs complete INTEGER parser, flags TC: strings len <= 4 over {0 7 _ x}.
-    /// @prop C11 C13
+    /// @prop C11 C13~
     /// @feat format radix_format
     /// @bound format F_TC; integer inputs of length <= 4 over {0 7 _ x}
     /// @fn lexical-parse-integer::algorithm (complete / partial instantiations)
@@ -398,7 +398,7 @@ crate::harnesses! {
     fn sep_partial_complete_int_tc_len4() { pc_int_body!(F_TC, 4) }
 
     /// partial vs complete INTEGER parser, flags TC: strings len <= 5 over {0 7 _ x}.
-    /// @prop C11 C13
+    /// @prop C11 C13~
     /// @tier thorough
     /// @feat format radix_format
     /// @bound format F_TC; integer inputs of length <= 5 over {0 7 _ x}
@@ -409,7 +409,7 @@ crate::harnesses! {
     fn sep_partial_complete_int_tc() { pc_int_body!(F_TC, 5) }
 
     /// partial vs complete INTEGER parser, flags T: strings len <= 5 over {0 7 _ x}.
-    /// @prop C11 C13
+    /// @prop C11 C13~
     /// @feat format radix_format
     /// @bound format F_T; integer inputs of length <= 5 over {0 7 _ x}
     /// @fn lexical-parse-integer::algorithm (complete / partial instantiations)
@@ -419,7 +419,7 @@ crate::harnesses! {
     fn sep_partial_complete_int_t() { pc_int_body!(F_T, 5) }
 
     /// partial vs complete INTEGER parser, flags IT: strings len <= 5 over {0 7 _ x}.
-    /// @prop C11 C13
+    /// @prop C11 C13~
     /// @feat format radix_format
     /// @bound format F_IT; integer inputs of length <= 5 over {0 7 _ x}
     /// @fn lexical-parse-integer::algorithm (complete / partial instantiations)
@@ -582,7 +582,7 @@ crate::harnesses! {
     fn sep_grammar_int_iltc() { grammar_int_body!(F_ALL, 5) }
 
     /// partial vs complete tokenizer, flags LTC: strings len <= 3 over {0 7 _ . e x}.
-    /// @prop C11 C13
+    /// @prop C11 C13~
     /// @tier thorough
     /// @mem 16
     /// @feat format radix_format
@@ -594,7 +594,7 @@ crate::harnesses! {
     fn sep_partial_complete_ltc() { pc_body!(F_LTC, 3) }
 
     /// partial vs complete tokenizer, flags LTC: strings len <= 5 over {0 7 _ . e x}.
-    /// @prop C11 C13
+    /// @prop C11 C13~
     /// @tier thorough
     /// @mem 6
     /// @feat format radix_format
@@ -606,7 +606,7 @@ crate::harnesses! {
     fn sep_partial_complete_ltc_len5() { pc_body!(F_LTC, 5) }
 
     /// partial vs complete tokenizer, flags ITC: strings len <= 3 over {0 7 _ . e x}.
-    /// @prop C11 C13
+    /// @prop C11 C13~
     /// @tier thorough
     /// @mem 16
     /// @feat format radix_format
@@ -618,7 +618,7 @@ crate::harnesses! {
     fn sep_partial_complete_itc() { pc_body!(F_ITC, 3) }
 
     /// partial vs complete tokenizer, flags ITC: strings len <= 5 over {0 7 _ . e x}.
-    /// @prop C11 C13
+    /// @prop C11 C13~
     /// @tier thorough
     /// @mem 6
     /// @feat format radix_format
@@ -630,7 +630,7 @@ crate::harnesses! {
     fn sep_partial_complete_itc_len5() { pc_body!(F_ITC, 5) }
 
     /// partial vs complete tokenizer, flags ILC: strings len <= 3 over {0 7 _ . e x}.
-    /// @prop C11 C13
+    /// @prop C11 C13~
     /// @tier thorough
     /// @mem 16
     /// @feat format radix_format
@@ -642,7 +642,7 @@ crate::harnesses! {
     fn sep_partial_complete_ilc() { pc_body!(F_ILC, 3) }
 
     /// partial vs complete tokenizer, flags ILC: strings len <= 5 over {0 7 _ . e x}.
-    /// @prop C11 C13
+    /// @prop C11 C13~
     /// @tier thorough
     /// @mem 6
     /// @feat format radix_format
@@ -654,7 +654,7 @@ crate::harnesses! {
     fn sep_partial_complete_ilc_len5() { pc_body!(F_ILC, 5) }
 
     /// partial vs complete tokenizer, flags ILTC: strings len <= 3 over {0 7 _ . e x}.
-    /// @prop C11 C13
+    /// @prop C11 C13~
     /// @tier thorough
     /// @mem 16
     /// @feat format radix_format
@@ -666,7 +666,7 @@ crate::harnesses! {
     fn sep_partial_complete_iltc() { pc_body!(F_ALL, 3) }
 
     /// partial vs complete tokenizer, flags ILTC: strings len <= 5 over {0 7 _ . e x}.
-    /// @prop C11 C13
+    /// @prop C11 C13~
     /// @tier thorough
     /// @mem 6
     /// @feat format radix_format
@@ -678,7 +678,7 @@ crate::harnesses! {
     fn sep_partial_complete_iltc_len5() { pc_body!(F_ALL, 5) }
 
     /// partial vs complete tokenizer, flags ILT: strings len <= 3 over {0 7 _ . e x}.
-    /// @prop C11 C13
+    /// @prop C11 C13~
     /// @tier thorough
     /// @mem 16
     /// @feat format radix_format
@@ -690,7 +690,7 @@ crate::harnesses! {
     fn sep_partial_complete_ilt() { pc_body!(F_ILT, 3) }
 
     /// partial vs complete tokenizer, flags ILT: strings len <= 5 over {0 7 _ . e x}.
-    /// @prop C11 C13
+    /// @prop C11 C13~
     /// @tier thorough
     /// @mem 6
     /// @feat format radix_format
@@ -702,7 +702,7 @@ crate::harnesses! {
     fn sep_partial_complete_ilt_len5() { pc_body!(F_ILT, 5) }
 
     /// partial vs complete tokenizer, flags LT: strings len <= 3 over {0 7 _ . e x}.
-    /// @prop C11 C13
+    /// @prop C11 C13~
     /// @tier thorough
     /// @mem 16
     /// @feat format radix_format
@@ -714,7 +714,7 @@ crate::harnesses! {
     fn sep_partial_complete_lt() { pc_body!(F_LT, 3) }
 
     /// partial vs complete tokenizer, flags LT: strings len <= 5 over {0 7 _ . e x}.
-    /// @prop C11 C13
+    /// @prop C11 C13~
     /// @tier thorough
     /// @mem 6
     /// @feat format radix_format
@@ -1018,12 +1018,23 @@ crate::harnesses! {
     #[cfg_attr(kani, kani::unwind(8))]
     fn sep_grammar_iltc_len5() { grammar_body!(F_ALL, 5) }
 
+    /// internal separators in all components: strings len <= 3 over {0 1 9 _ . e + - a}.
+    /// @prop C13 C10
+    /// @feat format radix_format
+    /// @bound format F_I (internal, all components); input length <= 3 over {0 1 9 _ . e + - a}
+    /// @fn lexical-util::skip::{peek, next, increment_count}[internal] via lexical-parse-float::parse::parse_number
+    /// @timeout 1500
+    #[cfg_attr(kani, kani::unwind(6))]
+    fn sep_internal_len3() { sep_body!(F_I, 3) }
+
     /// internal separators in all components: strings len <= 4 over {0 1 9 _ . e + - a}.
     /// @prop C13 C10
+    /// @tier thorough
+    /// @mem 18
     /// @feat format radix_format
     /// @bound format F_I (internal, all components); input length <= 4 over {0 1 9 _ . e + - a}
     /// @fn lexical-util::skip::{peek, next, increment_count}[internal] via lexical-parse-float::parse::parse_number
-    /// @timeout 1500
+    /// @timeout 3600
     #[cfg_attr(kani, kani::unwind(7))]
     fn sep_internal_len4() { sep_body!(F_I, 4) }
 
@@ -1038,12 +1049,23 @@ crate::harnesses! {
     #[cfg_attr(kani, kani::unwind(9))]
     fn sep_internal_len6() { sep_body!(F_I, 6) }
 
+    /// all separator flags (i/l/t/c, all components): strings len <= 3.
+    /// @prop C13 C10
+    /// @feat format radix_format
+    /// @bound format F_ALL; input length <= 3 over {0 1 9 _ . e + - a}
+    /// @fn lexical-util::skip (iltc) via parse_number
+    /// @timeout 1500
+    #[cfg_attr(kani, kani::unwind(6))]
+    fn sep_all_len3() { sep_body!(F_ALL, 3) }
+
     /// all separator flags (i/l/t/c, all components): strings len <= 4.
     /// @prop C13 C10
+    /// @tier thorough
+    /// @mem 18
     /// @feat format radix_format
     /// @bound format F_ALL; input length <= 4 over {0 1 9 _ . e + - a}
     /// @fn lexical-util::skip (iltc) via parse_number
-    /// @timeout 1500
+    /// @timeout 3600
     #[cfg_attr(kani, kani::unwind(7))]
     fn sep_all_len4() { sep_body!(F_ALL, 4) }
 
